@@ -148,19 +148,22 @@ class Decider:
             # constant false goal: violated under any model of the assumptions
         A = self.cone(goal, extra)
         ng = tm.bnot(goal)
-        res = None
         if not goal.is_const:
-            # A0: EUF abstraction
+            # A0: EUF abstraction (over-approximates the models: unsat here is unsat of the real query)
             s = self._solver(self.t_short); memo = {}; ufs = {}
             for a in A: s.add(tm.to_z3(a, memo, ufs, abstract=True))
             s.add(tm.to_z3(ng, memo, ufs, abstract=True))
             if self._check(s) == "unsat":
                 return dict(verdict="unsat", phase="A0", ms=1000 * (time.time() - t0))
-            # A1 short
+        # B (one cheap round first: a satisfiable query is usually refuted here in milliseconds)
+        rb, model = self._phase_b(goal, A, rounds=1)
+        if rb == "sat":
+            return dict(verdict="sat", phase="B", ms=1000 * (time.time() - t0), model=model)
+        if not goal.is_const:
             r1 = self._a1(A, ng, self.t_short, name)
             if r1 == "unsat":
                 return dict(verdict="unsat", phase="A1", ms=1000 * (time.time() - t0))
-        rb, model = self._phase_b(goal, A)
+        rb, model = self._phase_b(goal, A, first_round=1)
         if rb == "sat":
             return dict(verdict="sat", phase="B", ms=1000 * (time.time() - t0), model=model)
         if not goal.is_const and self.t_long > self.t_short:
@@ -178,13 +181,13 @@ class Decider:
             self.smt2.append((name, s.to_smt2(), r))
         return r
 
-    def _phase_b(self, goal, A, want_model=True):
+    def _phase_b(self, goal, A, want_model=True, rounds=None, first_round=0):
         allterms = [goal] + list(A)
         fv = free_vars(allterms)
         reals = sorted(n for n, v in fv.items() if v.sort == "Real")
         last = "unknown"
         old = tm.CONCRETE["on"]
-        for rnd in range(self.rounds):
+        for rnd in range(first_round, first_round + (rounds or self.rounds)):
             env = {n: self.hints.value(n, rnd) for n in reals}
             tm.CONCRETE["on"] = True
             try:
